@@ -901,7 +901,27 @@ class C19(SmallSuite):
         rep.sig = rep.digest
         return rep
 
+    def gen_storm(self, rng, run_seed):
+        """A long history: several hundred intervals queued under high characteristics, all of them re-estimated downwards
+        afterwards (no refill): the next request has to get past a thousand and more stale entries."""
+        kind = rng.choice(["single", "dual", "dual"])
+        n = rng.randint(520, 700)
+        ops = [{"op": "insert_first", "g": [0.5, 0.25], "l": [0.5, 0.25]}]
+        xs = sorted({float("%.6g" % rng.random()) for _ in range(n)} - {0.0, 1.0})
+        rng.shuffle(xs)
+        for j, x in enumerate(xs):
+            ops.append({"op": "insert", "x": x, "g": 100.0 + j, "l": 300.0 + j, "hint": rng.random() < 0.8, "rg": 1000.0 + j, "rl": 2000.0 + j})
+        low = rng.randint(2, len(xs) // 2)
+        for i in range(len(xs) + 2):
+            if i != low:
+                ops.append({"op": "set_r", "i": i, "g": -1.0 - i * 1e-3, "l": -2.0 - i * 1e-3})
+        ops += [{"op": "best_g"}] + ([{"op": "best_l"}] if kind == "dual" else []) + [{"op": "best_g"}, {"op": "count"}]
+        return {"property": self.prop, "suite": "containers", "format": 1, "run_seed": run_seed, "kind": kind, "maxlen": None,
+                "ops": ops, "storm": True}
+
     def gen_plan(self, rng, tier, run_seed):
+        if rng.random() < 0.002:
+            return self.gen_storm(rng, run_seed)
         kind = rng.choice(["single", "single", "dual", "dual", "queue"])
         maxlen = rng.choice([None, None, 1, 2, 3, 5])
         distinct = rng.random() < 0.35
